@@ -16,10 +16,8 @@ ScMul(a, b)   == MulMod(a, b, L)
 ScNeg(a)      == NegMod(a, L)
 ScInvert(a)   == InvMod(a, L)             \* specified for a # 0
 ScPow(a, e)   == PowMod(a, e, L)
-RECURSIVE ScSum(_, _)
-ScSum(s, i)   == IF i > Len(s) THEN S0 ELSE ScAdd(s[i], ScSum(s, i + 1))
-RECURSIVE ScProd(_, _)
-ScProd(s, i)  == IF i > Len(s) THEN S1 ELSE ScMul(s[i], ScProd(s, i + 1))
+ScSum(s, i)   == FoldLeft(LAMBDA acc, x : ScAdd(acc, x), S0, SubSeq(s, i, Len(s)))
+ScProd(s, i)  == FoldLeft(LAMBDA acc, x : ScMul(acc, x), S1, SubSeq(s, i, Len(s)))
 
 \* from_canonical_bytes: <<ok, value>>
 ScFromCanonical(b) == IF BLt(b, L) THEN <<TRUE, b>> ELSE <<FALSE, S0>>
